@@ -3,3 +3,6 @@ import EdxmlProps.Audit
 import EdxmlProps.C01
 import EdxmlProps.C04
 import EdxmlProps.C05
+import EdxmlProps.C06
+import EdxmlProps.C14
+import EdxmlProps.C19
